@@ -8,21 +8,25 @@ package delegation
 // the configured gateway contract; otherwise the call fails and nothing changes.
 
 //@ func (Precompile).Delegate
+//@   names ctx, origin, contract, stateDB, method, args
 //@   requires contract != nil && !gatewayOK(ctx, contract.CallerAddress)
 //@   flag prune
 //@   ensures[C10.pd.del.gateway] err != nil && state(ctx) == old(state(ctx))
 
 //@ func (Precompile).Undelegate
+//@   names ctx, origin, contract, stateDB, method, args
 //@   requires contract != nil && !gatewayOK(ctx, contract.CallerAddress)
 //@   flag prune
 //@   ensures[C10.pd.undel.gateway] err != nil && state(ctx) == old(state(ctx))
 
 //@ func (Precompile).AssociateOperatorWithStaker
+//@   names ctx, origin, contract, stateDB, method, args
 //@   requires contract != nil && !gatewayOK(ctx, contract.CallerAddress)
 //@   flag prune
 //@   ensures[C10.pd.assoc.gateway] err != nil && state(ctx) == old(state(ctx))
 
 //@ func (Precompile).DissociateOperatorFromStaker
+//@   names ctx, origin, contract, stateDB, method, args
 //@   requires contract != nil && !gatewayOK(ctx, contract.CallerAddress)
 //@   flag prune
 //@   ensures[C10.pd.dissoc.gateway] err != nil && state(ctx) == old(state(ctx))
